@@ -176,6 +176,23 @@ def acc_cases(seed, n, maxdim, groups, path, large_share=0.25):
                 a = {"by": by, "stable": True, "form": form, "line": line}
                 # give every cell a random key so that the key line has ties
                 ids = [3 * (i + 1) + rnd.randint(0, 2) for i in range(nc * nr)]
+                # structured key lines (sorted, reversed, sorted prefix + one appended, nearly sorted, all equal)
+                pat = rnd.randint(0, 7)
+                if pat >= 3 and line < nlines:
+                    a0 = [0, 0]
+                    for w in stack:
+                        a0 = [a0[0] + w["s"][0], a0[1] + w["s"][1]]
+                    n = c if by == "row" else r
+                    keys = [(i * 3) // max(n, 1) for i in range(n)]
+                    if pat == 4: keys.reverse()
+                    elif pat == 5 and n: keys[-1] = rnd.randint(0, 2)
+                    elif pat == 6:
+                        for _ in range(rnd.randint(1, 3)):
+                            i1, i2 = rnd.randrange(n), rnd.randrange(n); keys[i1], keys[i2] = keys[i2], keys[i1]
+                    elif pat == 7: keys = [1] * n
+                    for i in range(n):
+                        x, y = (a0[0] + i, a0[1] + line) if by == "row" else (a0[0] + line, a0[1] + i)
+                        ids[y * nc + x] = ids[y * nc + x] // 3 * 3 + keys[i]
             else:
                 raise ValueError(g)
             case = {"fam": "acc", "root": {"kind": "owned", "nc": nc, "nr": nr, "ids": ids}, "stack": stack,
